@@ -17,8 +17,10 @@ import Relic.Proofs.XmlPermFull
 import Relic.Proofs.XmlUnused
 import Relic.Proofs.XmlExcCtx
 import Relic.Proofs.XmlSens
+import Relic.Proofs.XmlInj
+import Relic.Proofs.XmlWf
 namespace Relic.Props.C19
-open Relic Relic.EcdsaPack Relic.Xml Relic.Xml.Sens
+open Relic Relic.EcdsaPack Relic.Xml Relic.Xml.Sens Relic.Xml.Inj
 
 /-! ## ECDSA `r ‖ s` (F17) -/
 
@@ -233,9 +235,87 @@ example : TextEdit [0x61] [0x62] (.elem [] [0x72] [] [.comment [], .elem [] [0x6
     (.elem [] [0x72] [] [.comment [], .elem [] [0x65] [] [.text [0x62] false]]) := by
   simp [TextEdit, TextEditL]
 
-/-- full statement of sensitivity: the canonical form determines the tree up to the erased information -/
+/-- **canon_sensitive.**  The canonical form determines the walked tree: on well-formed walked trees (`Inj.wfNode`, a
+    decidable predicate: element and attribute names as encoding/xml + etree deliver them – name bytes only, i.e.
+    none of SP `>` `=` `/` `!`, prefix without colon, local name non-empty and without inner colon –, character data
+    non-empty and without the CDATA flag, no two character-data nodes next to each other, no other token kinds) the
+    serialisation is read back uniquely, so equal canonical forms mean equal walked trees: every change of a name, an
+    attribute (added, removed, renamed, re-valued), a character-data node, of the order or the nesting of elements,
+    that survives `walk`, changes the canonical bytes. -/
+theorem canon_sensitive (ctx : List (List Attr)) (t t' : Node)
+    (h : wfNode (walk (pullDown ctx t)) = true) (h' : wfNode (walk (pullDown ctx t')) = true)
+    (e : canon ctx t = canon ctx t') : walk (pullDown ctx t) = walk (pullDown ctx t') :=
+  ser_injective _ _ h h' e
+
+/-- **canon_sensitive_of_input.**  The same with the hypotheses on the *input* documents: proper names (`Inj.wfIn`;
+    comments, processing instructions and directives may occur anywhere), and no two character-data nodes that become
+    neighbours once those are removed (`Inj.adjOK`) – for every ancestor context `ctx` (a pending declaration becomes
+    an attribute only where its prefix is used, and a used prefix is a proper one). -/
+theorem canon_sensitive_of_input (ctx : List (List Attr)) (t t' : Node)
+    (hw : wfIn t = true) (ha : adjOK t = true) (he : ∃ sp tag as ks, t = .elem sp tag as ks)
+    (hw' : wfIn t' = true) (ha' : adjOK t' = true) (he' : ∃ sp tag as ks, t' = .elem sp tag as ks)
+    (e : canon ctx t = canon ctx t') : walk (pullDown ctx t) = walk (pullDown ctx t') :=
+  canon_sensitive ctx t t' (wfNode_walk_pullDown ctx t hw ha he) (wfNode_walk_pullDown ctx t' hw' ha' he') e
+
+/-- non-vacuity: `<p:r xmlns:p="u" k="v"><!--c-->text<a q:x="1"><b/></a>tail</p:r>` below an ancestor declaring `q` -/
+example : wfIn (.elem [112] [114] [⟨sXmlns, [112], [117]⟩, ⟨[], [107], [118]⟩]
+      [.comment [99], .text [116] false, .elem [] [97] [⟨[113], [120], [49]⟩] [.elem [] [98] [] []], .text [108] false]) = true ∧
+    adjOK (.elem [112] [114] [⟨sXmlns, [112], [117]⟩, ⟨[], [107], [118]⟩]
+      [.comment [99], .text [116] false, .elem [] [97] [⟨[113], [120], [49]⟩] [.elem [] [98] [] []], .text [108] false]) = true := by
+  refine ⟨?_, ?_⟩
+  · simp only [wfIn, wfInKids, List.all_cons, List.all_nil, attrOK]
+    decide
+  · simp [adjOK, adjKids]
+
+/-- the statement without well-formedness hypotheses -/
 def canon_sensitive_full : Prop :=
   ∀ (ctx : List (List Attr)) (t t' : Node), canon ctx t = canon ctx t' → walk (pullDown ctx t) = walk (pullDown ctx t')
+
+/-- it is false, and `adjOK` is the hypothesis that is needed beyond proper names: two character-data nodes that a
+    removed comment separated (`<a>x<!--c-->y</a>`) and one node `xy` have the same canonical form `<a>xy</a>` but
+    different walked trees.  (The difference is not observable by any XML processor either: adjacent character data is
+    one text.) -/
+theorem canon_sensitive_full_false : ¬ canon_sensitive_full := by
+  intro h
+  have h1 := h [] (.elem [] [97] [] [.text [120] false, .comment [99], .text [121] false])
+    (.elem [] [97] [] [.text [120, 121] false]) (by
+      rw [canon_eq_walkE, canon_eq_walkE]
+      simp only [walkE, walkKidsE]
+      decide)
+  rw [walk_pullDown_eq, walk_pullDown_eq] at h1
+  simp only [walkE, walkKidsE] at h1
+  simp at h1
+
+/-- hypotheses of `wfNode` that are needed, each with two different trees of the same serialisation: a colon in an
+    unprefixed local name (`fullName` collides), `=` in an attribute name (one attribute reads as two), an empty
+    character-data node.  (The conditions on element names are sufficient; the repeated name in the end tag makes
+    collisions there harder, and none is claimed.) -/
+example : ser (.elem [97] [98] [] []) = ser (.elem [] [97, 58, 98] [] []) := by decide
+example : ser (.elem [] [97] [⟨[], [107, 61, 34, 118, 34, 32, 120], [119]⟩] []) =
+    ser (.elem [] [97] [⟨[], [107], [118]⟩, ⟨[], [120], [119]⟩] []) := by decide
+example : ser (.elem [] [97] [] [.text [] false]) = ser (.elem [] [97] [] []) := by decide
+
+/-- **canon_sensitive_child_swap_general.**  The general form of `canon_sensitive_child_swap`: exchanging two
+    neighbouring child *elements* (of any element of the subtree) changes the canonical form whenever the two
+    elements are well-formed and their canonical forms differ under every list of pending declarations
+    (`Inj.GenPair`; `Inj.genPair_of_wfIn` derives it from `wfIn`, `adjOK` and the inequality).  The unambiguity of the
+    serialisation (`Inj.ser_elem_inj`: an element's canonical form is self-delimiting) is what was missing. -/
+theorem canon_sensitive_child_swap_general (ctx : List (List Attr)) (t t' : Node) (h : SwapEdit GenPair t t') :
+    canon ctx t ≠ canon ctx t' :=
+  canon_swap_sensitive_general ctx t t' h
+
+/-- two children with the *same* qualified name and different content, which `canon_sensitive_child_swap` does not
+    cover: `<r><a>x</a><a>y</a></r>` ↦ `<r><a>y</a><a>x</a></r>` -/
+example : SwapEdit GenPair (.elem [] [114] [] [.elem [] [97] [] [.text [120] false], .elem [] [97] [] [.text [121] false]])
+    (.elem [] [114] [] [.elem [] [97] [] [.text [121] false], .elem [] [97] [] [.text [120] false]]) := by
+  refine (swapEdit_elem ..).2 ⟨rfl, rfl, rfl, Or.inl ⟨[], _, _, [], ?_, rfl, rfl⟩⟩
+  refine genPair_of_wfIn _ _ trivial trivial ?_ ?_ ?_ ?_ ?_
+  · simp only [wfIn, wfInKids, List.all_nil]; decide
+  · simp only [wfIn, wfInKids, List.all_nil]; decide
+  · simp [adjOK, adjKids]
+  · simp [adjOK, adjKids]
+  · intro ds h
+    simp [walkE, walkKidsE] at h
 
 /-- full statement of agreement with the standard; false (see the witnesses replayed by the harness: attribute order by
     prefix, redundant declarations, `xmlns=""`, processing instructions) -/
